@@ -183,6 +183,12 @@ fn qml_text(state: &SrcState, variant: usize) -> String {
             let mut s = format!("import qmluic.QtWidgets\nQDialog {{\n    windowTitle: \"u{u}\"\n");
             if *h > 0 {
                 s.push_str(&format!("    QLabel {{ id: a; text: b.text + \"h{h}\" }}\n    QLineEdit {{ id: b }}\n"));
+                // everything the support code keeps in unordered containers, so that "unchanged input, unchanged output"
+                // also speaks about their emission order: every system header (<algorithm>, <cmath>, <QtDebug>), several
+                // bindings with shared sources, several handlers
+                s.push_str("    QLineEdit { id: e; onTextEdited: console.log(e.text); onEditingFinished: console.warn(\"done\") }\n");
+                s.push_str("    QDoubleSpinBox { id: c; value: Math.max(d.value, 1.5) % 2.5; minimum: Math.min(d.value, 9.5) }\n");
+                s.push_str("    QDoubleSpinBox { id: d }\n");
             }
             s.push_str("}\n");
             s
@@ -949,7 +955,7 @@ impl<'a> World<'a> {
                         Some(_) => "it was rewritten with something else",
                         None => "it was created with something else",
                     };
-                    f.push(format!("{} does not hold what a fresh run of the same source produces: {was}", rel(path)));
+                    f.push(format!("{} does not hold what a fresh run of the same source produces: {was} ({} bytes, a fresh run gives {})", rel(path), e.content.len(), bytes.len()));
                 }
                 None => f.push(format!("{} does not exist after a run that translated its source", rel(path))),
             }
